@@ -12,7 +12,7 @@
    after consuming n bytes, or waits for more input.  The codec computes its running CRC over
    exactly the bytes gob consumed (bulkGobCodec.Read), which is what [takeN n s] yields here. *)
 From Coq Require Import List NArith ZArith Bool.
-From BLB Require Import Lib.CRC Lib.CRCFast Gen.Consts C16.CrcT.
+From BLB Require Import Lib.CRC Lib.CRCFast Gen.Consts C16.CrcT C16.RetryModel.
 Import ListNotations.
 Open Scope N_scope.
 
@@ -336,6 +336,10 @@ Definition step (s : st) (op : list Z) : st * list Z :=
           expect := expect s; errd := errd s; sticky := sticky s; verdict := verdict s |}, [0%Z])
   | [9%Z] =>      (* property verdict of the case so far *)
       (s, [777%Z; verdict s])
+  | [20%Z; mode; fault; cached; errnil; ndials; ndeliv; allsame; replyok] =>
+      (* one call through ConnectionCache.Send / rpc.Client.Call under a fault script, as observed by the harness *)
+      (s, [777%Z; conn_verdict (Z.to_N mode) (Z.to_N fault) (negb (cached =? 0)%Z) (negb (errnil =? 0)%Z)
+                               (Z.to_N ndials) (Z.to_N ndeliv) (negb (allsame =? 0)%Z) (negb (replyok =? 0)%Z)])
   | _ => (s, bad)
   end.
 
